@@ -53,11 +53,11 @@ pub fn dump_records(texts: &[String], out: &str) -> i32 {
 
 fn other_bin() -> String {
     let (var, default) = if cfg!(debug_assertions) { ("FFV_REL_BIN", "release") } else { ("FFV_DEV_BIN", "debug") };
-    std::env::var(var).unwrap_or_else(|_| format!("{VERIF_DIR}/harness/target/{default}/ffv"))
+    std::env::var(var).unwrap_or_else(|_| format!("{}/harness/target/{default}/ffv", verif_dir()))
 }
 
 fn other_records(texts: &[String]) -> Option<Vec<String>> {
-    let scratch = std::env::var("FFV_SCRATCH").unwrap_or_else(|_| format!("{VERIF_DIR}/harness/target/scratch"));
+    let scratch = std::env::var("FFV_SCRATCH").unwrap_or_else(|_| format!("{}/harness/target/scratch", verif_dir()));
     let input = format!("{scratch}/c17-in-{}.json", std::process::id());
     let out = format!("{scratch}/c17-rec-{}.json", std::process::id());
     std::fs::write(&input, serde_json::to_string(texts).ok()?).ok()?;
@@ -88,7 +88,7 @@ pub fn replay(case: &Value) -> Result<Verdict, String> {
 
 pub fn run(ctx: &Ctx) -> Report {
     let mut st = Stats::new();
-    let scratch = std::env::var("FFV_SCRATCH").unwrap_or_else(|_| format!("{VERIF_DIR}/harness/target/scratch"));
+    let scratch = std::env::var("FFV_SCRATCH").unwrap_or_else(|_| format!("{}/harness/target/scratch", verif_dir()));
     let _ = std::fs::create_dir_all(&scratch);
     let out = format!("{scratch}/c17-{}.txt", std::process::id());
     // the other build dumps its record hashes while this build computes its own
